@@ -79,6 +79,9 @@ fn run18<T: Est>(c: &S18, o: &mut Obs) -> TestResult {
         apply(&mut e, op);
     }
     let before = e.snap();
+    // the uninterrupted computation: a copy that is never serialised
+    let mut control = e.clone();
+    let dbg_before = e.dbg();
     let s = match e.to_json() {
         Ok(s) => s,
         Err(m) => return fail("serde:serialize", format!("{}: serialisation failed: {}", T::NAME, m)),
@@ -98,6 +101,10 @@ fn run18<T: Est>(c: &S18, o: &mut Obs) -> TestResult {
     o.evals += 1;
     if let Some(d) = snap_diff(&before, &e.snap()) {
         return fail("serde:serialize-modifies", format!("{}: serialising modified the estimator: {}", T::NAME, d));
+    }
+    o.evals += 1;
+    if e.dbg() != dbg_before {
+        return fail("serde:serialize-modifies", format!("{}: serialising modified the estimator's (Debug-visible) state: {} -> {}", T::NAME, dbg_before, e.dbg()));
     }
     let mut r = match T::from_json(&s) {
         Ok(r) => r,
@@ -126,7 +133,11 @@ fn run18<T: Est>(c: &S18, o: &mut Obs) -> TestResult {
         apply(&mut e, op);
         apply(&mut r, op);
         apply(&mut r2, op);
-        o.evals += 2;
+        apply(&mut control, op);
+        o.evals += 3;
+        if let Some(d) = snap_diff(&control.snap(), &e.snap()) {
+            return fail("serde:serialize-modifies", format!("{}: {} operations after it was serialised (checkpoint {}) the estimator diverges from a copy that was never serialised: {}", T::NAME, k + 1, cp, d));
+        }
         if let Some(d) = snap_diff(&e.snap(), &r2.snap()) {
             return fail("serde:continuation-differs", format!("{}: {} operations after the round trip through serde_json::Value (checkpoint {}) the restored copy diverges: {}", T::NAME, k + 1, cp, d));
         }
